@@ -218,7 +218,7 @@ func ammoConf(c Cell) map[string]any {
 func resultConf(c Cell) map[string]any {
 	switch c.Result {
 	case "phout":
-		return map[string]any{"type": "phout", "destination": "/phout.log", "id": true}
+		return map[string]any{"type": "phout", "destination": "/phout.log", "id": true, "buffer-size": 4096}
 	case "jsonlines":
 		return map[string]any{"type": "jsonlines", "sink": map[string]any{"type": "file", "path": "/out.jsonl"}}
 	case "log":
